@@ -62,15 +62,24 @@ void pl_lemma_consts(void)
  * Each lemma is one scenario of "t lies in row i's interval"; together: before the first row, after the last row, inside (cs before / at
  * or after the next row's civil second - the latter only happens in the last seconds before an overlap).
  * Conclusion in every scenario: the lookup is not SKIPPED, and it is UNIQUE with pre == t or REPEATED with t == pre or t == post. */
+#pragma CPROVER check push
+#pragma CPROVER check disable "pointer"
+#pragma CPROVER check disable "pointer-primitive"
+#pragma CPROVER check disable "pointer-overflow"
+#pragma CPROVER check disable "bounds"
+#pragma CPROVER check disable "signed-overflow"
+#pragma CPROVER check disable "conversion"
 static TimeZoneInfo* c03_zone(void)
 {
   TimeZoneInfo* z = malloc(sizeof(TimeZoneInfo));
+  __CPROVER_assume(z != NULL);
   size_t n, nty;
   __CPROVER_assume(1 <= n && n <= ZMAXTR && 1 <= nty && nty <= 256);
   z->transitions_.size = n;
   z->transitions_.data = malloc(n * sizeof(Transition));
   z->transition_types_.size = nty;
   z->transition_types_.data = malloc(nty * sizeof(TransitionType));
+  __CPROVER_assume(z != NULL && z->transitions_.data != NULL && z->transition_types_.data != NULL);   /* (the C library model lets malloc fail) */
   __CPROVER_assume(DEFTY(z) < NTY(z) && VSTR_WF(z->abbreviations_) && !z->extended_);
   gz_extended = 0;
   /* ends of the table (what both contracts require of every zone) */
@@ -137,6 +146,7 @@ void pl_C03_before(void)
   __CPROVER_assume(t < TR(z, 0).unix_time);
   __CPROVER_assume((Z)t >= (Z)INT64_MIN + 2 * 86400);            /* C03's range: t in [min()+1day, max()-1day] */
   __CPROVER_assume(NTR(z) >= 2 && WFI(z, 1) && MARGIN(z, 1) && TR(z, 0).unix_time < TR(z, 1).unix_time && (Z)TR(z, 1).unix_time - (Z)TR(z, 0).unix_time > 2 * 86400);
+  C03_HINTS(z, t, 0);
   absolute_lookup al = BreakTime(z, t);
   fields cs = al.cs;
   LEX2(cs, TR(z, 0).civil_sec); LEX2(cs, TR(z, 0).prev_civil_sec); LEX2(cs, TR(z, 1).civil_sec); LEX2(cs, TR(z, 1).prev_civil_sec); LEX2(cs, TR(z, NTR(z) - 1).civil_sec);
@@ -156,6 +166,7 @@ void pl_C03_after(void)
   __CPROVER_assume(t >= TR(z, NTR(z) - 1).unix_time);
   __CPROVER_assume((Z)t <= (Z)INT64_MAX - 2 * 86400);
   __CPROVER_assume(FITS64((Z)t - TR(z, NTR(z) - 1).unix_time));
+  C03_HINTS(z, t, 0);
   absolute_lookup al = BreakTime(z, t);
   fields cs = al.cs;
   LEX2(cs, TR(z, 0).civil_sec); LEX2(cs, TR(z, NTR(z) - 1).civil_sec); LEX2(cs, TR(z, NTR(z) - 1).prev_civil_sec);
@@ -164,3 +175,45 @@ void pl_C03_after(void)
   civil_lookup cl = MakeTime(z, cs);
   __CPROVER_assert(C03_OK(cl, t), "C03: recovered (at or after the last row)");
 }
+/* reachability probes (run by hand): their assertions must FAIL, otherwise the scenario assumptions would be contradictory */
+void pl_C03_probe_a(void)
+{
+  TimeZoneInfo* z = c03_zone();
+  time_point_s t;
+  __CPROVER_assume(BT_MIDDLE(z, t) && TBRACKET(z, gz_i, t) && WFI(z, gz_i) && WFI(z, gz_i + 1) && MARGIN(z, gz_i) && MARGIN(z, gz_i + 1));
+  __CPROVER_assume(FITS64((Z)t - TR(z, gz_i).unix_time));
+  C03_HINTS(z, t, 0);
+  absolute_lookup al = BreakTime(z, t);
+  fields cs = al.cs;
+  LEX2(cs, TR(z, gz_i).civil_sec); LEX2(cs, TR(z, gz_i + 1).civil_sec); LEX2(cs, TR(z, gz_i + 1).prev_civil_sec); LEX2(cs, TR(z, gz_i).prev_civil_sec);
+  LEX2(cs, TR(z, 0).civil_sec); LEX2(cs, TR(z, NTR(z) - 1).civil_sec);
+  __CPROVER_assume(OSEC(cs) < OSEC(TR(z, gz_i + 1).civil_sec));                 /* scenario a */
+  gz_j = gz_i + 1;
+  /* instances of the civil order: row 0 <= row i, row i+1 <= last row */
+  __CPROVER_assume(OSEC(TR(z, 0).civil_sec) <= OSEC(TR(z, gz_i).civil_sec) && OSEC(TR(z, gz_i + 1).civil_sec) <= OSEC(TR(z, NTR(z) - 1).civil_sec));
+  __CPROVER_assume((0 < gz_hint && gz_hint < NTR(z) && !LEXLT(cs, TR(z, gz_hint - 1).civil_sec) && LEXLT(cs, TR(z, gz_hint).civil_sec)) ? gz_hint == gz_j : 1);
+  civil_lookup cl = MakeTime(z, cs);
+  __CPROVER_assert(cl.kind != KIND_UNIQUE, "PROBE: must FAIL - a unique answer is reachable in scenario a");
+}
+void pl_C03_probe_b(void)
+{
+  TimeZoneInfo* z = c03_zone();
+  time_point_s t;
+  __CPROVER_assume(BT_MIDDLE(z, t) && TBRACKET(z, gz_i, t) && WFI(z, gz_i) && WFI(z, gz_i + 1) && MARGIN(z, gz_i) && MARGIN(z, gz_i + 1));
+  __CPROVER_assume(gz_i + 2 < NTR(z) && WFI(z, gz_i + 2) && MARGIN(z, gz_i + 2) && TR(z, gz_i + 1).unix_time < TR(z, gz_i + 2).unix_time);
+  __CPROVER_assume(FITS64((Z)t - TR(z, gz_i).unix_time));
+  C03_HINTS(z, t, 0);
+  absolute_lookup al = BreakTime(z, t);
+  fields cs = al.cs;
+  LEX2(cs, TR(z, gz_i + 1).civil_sec); LEX2(cs, TR(z, gz_i + 1).prev_civil_sec); LEX2(cs, TR(z, gz_i + 2).civil_sec); LEX2(cs, TR(z, gz_i + 2).prev_civil_sec);
+  LEX2(cs, TR(z, 0).civil_sec); LEX2(cs, TR(z, NTR(z) - 1).civil_sec);
+  __CPROVER_assume(OSEC(cs) >= OSEC(TR(z, gz_i + 1).civil_sec));                /* scenario b */
+  /* spacing (well-formed zones: offset changes farther apart than the sum of their sizes): rows i+1 and i+2 are more than two days apart */
+  __CPROVER_assume((Z)TR(z, gz_i + 2).unix_time - (Z)TR(z, gz_i + 1).unix_time > 2 * 86400);
+  gz_j = gz_i + 2;
+  __CPROVER_assume(OSEC(TR(z, 0).civil_sec) <= OSEC(TR(z, gz_i + 1).civil_sec) && OSEC(TR(z, gz_i + 2).civil_sec) <= OSEC(TR(z, NTR(z) - 1).civil_sec));
+  __CPROVER_assume((0 < gz_hint && gz_hint < NTR(z) && !LEXLT(cs, TR(z, gz_hint - 1).civil_sec) && LEXLT(cs, TR(z, gz_hint).civil_sec)) ? gz_hint == gz_j : 1);
+  civil_lookup cl = MakeTime(z, cs);
+  __CPROVER_assert(cl.kind != KIND_REPEATED, "PROBE: must FAIL - the repeated answer is reachable in scenario b");
+}
+#pragma CPROVER check pop
